@@ -549,6 +549,7 @@ pub fn judge_c10(p: &Prog, pr: &Probe) -> Judge {
 }
 
 pub fn run_c10(ctx: &Ctx) {
+    ctx.enable_traced_pass(4);
     ctx.set_rule("proptest-generated builder programs: entry point (10 operations through IppOperationBuilder or through the public struct constructors, and the two raw constructors) x sequence of 0-5 builder calls (setters repeated, attribute/attributes mixed, 0..n requested attributes incl. exactly one and duplicates) x arguments (arbitrary UTF-8 incl. empty and long, any i32 job id, any model value as job attribute incl. the same name twice, component-generated target URIs, payload from a fragmented source), converted with into_ipp_request() or IppRequestResponse::from. Oracle: expected-request model written from the property text (own op-code table, version 1.1, positive request-id, exactly the described attributes, printer-uri judged by C13's component oracle, payload bytes), compared in canonical form and again through the reference decoder on to_bytes(). Non-trivial = >=2 calls incl. a repeated single-valued setter or a duplicate job-attribute name, or exactly one requested attribute; distinct by program hash.");
     let (shards, per) = ctx.tier.pick((16, 10000), (16, 150000));
     run_prop(ctx, "builders", shards, per, prog, judge_c10, prog_json);
@@ -683,6 +684,7 @@ pub fn judge_c09(c: &C09Case, pr: &Probe, instances: usize) -> Judge {
 }
 
 pub fn run_c09(ctx: &Ctx) {
+    ctx.enable_traced_pass(4);
     ctx.set_rule("proptest-generated programs: a request/response from any public constructor or operation builder with arbitrary optional parameters, followed by 0-19 further attributes_mut().add() calls (any group; names incl. printer-uri, job-uri, job-id, charset/language and random names), each program instantiated N times from scratch (quick 32, thorough 64; each instance is one evaluation) so the randomly keyed maps iterate differently; the bytes are read by the reference decoder: first group 0x01, [0]=attributes-charset, [1]=attributes-natural-language, a single target URI at [2], job-id at [3] when the target is printer-uri + job-id. Non-trivial = operation group has >=5 attributes and a target attribute; distinct by program hash.");
     ctx.assume("programs with both printer-uri and job-uri, or job-id without printer-uri: only the first two positions are asserted (RFC 8011 does not define them)");
     let n = ctx.tier.pick(32, 64);
@@ -990,6 +992,7 @@ pub fn judge_iter_program(c: &(CValue, Vec<IterOp>), pr: &Probe) -> Judge {
 }
 
 pub fn run_c19(ctx: &Ctx) {
+    ctx.enable_traced_pass(4);
     ctx.set_rule("(a) proptest-generated histories: start state (empty container, a constructor's message, or a parser-produced message that may contain repeated groups) followed by 0-39 add(kind, name, value) operations with names from a small pool (so replacement happens); after EVERY step (one evaluation each) groups(), groups_of(k) for all four kinds and finally into_groups() are compared with an ordered-list-of-groups model. (b) generated values (incl. sets with 0 or 1 element whose element is itself a set or collection): traversal yields set elements in order / collection member values in byte-lexicographic member-name order / the value itself once, then None on three further calls; and the same iterator driven through a generated program of 1-6 std iterator calls (next, nth(k), by_ref().skip(k).next(), take(k), step_by(k)) must yield what a slice iterator over the expected elements yields at every step. Non-trivial = history with a replacement and an add to a kind that occurs twice, or a traversed set/collection with >=2 elements; distinct by hash.");
     let (shards, per) = ctx.tier.pick((16, 2000), (16, 40000));
     run_prop(ctx, "add-history", shards, per, history, judge_c19, history_json);
